@@ -7,6 +7,7 @@
 import Cello.Config
 import CelloGen.Cfg
 import CelloProofs.Lemmas.Cfg
+import CelloProofs.Lemmas.CfgFull
 
 namespace Cello.Config
 open CelloGen.Cfg
@@ -161,6 +162,28 @@ theorem C18_cache_is_memo (cfg : Cfg) (memo : List ((String × Nat) × String)) 
 theorem C18_collect_preserves_reachable (s : St) :
     (collect s).live = s.live ∧ ∀ p ∈ s.live, findObj (collect s).heap p.2 = findObj s.heap p.2 :=
   ⟨rfl, collect_find s⟩
+
+/-- **Complete characterisation, no in-contract hypothesis.** For every program and every configuration, the outcome lists
+    under the default build and under `cfg` have the same length and agree position by position, except that a raise of
+    the default build may be undefined behaviour under `cfg` — and only when `cfg` compiles the checks out.  Unconditional
+    error paths (KeyError of an absent key, ValueError of an absent element) raise identically everywhere, and after every
+    step, whatever its outcome, both builds show the program the same objects.  C18_config_independent is the special case
+    without raises. -/
+theorem C18_only_compiled_out_checks_differ (cfg : Cfg) (prog : List Op) :
+    ((run Cfg.default prog St.init).2.length = (run cfg prog St.init).2.length ∧
+     ∀ (i : Nat) (x y : Outcome Out), (run Cfg.default prog St.init).2[i]? = some x → (run cfg prog St.init).2[i]? = some y →
+        (y = x ∨ (cfg.checks = false ∧ (∃ e, x = .raised e) ∧ y = .ub))) ∧
+    (run cfg prog St.init).1.observe = (run Cfg.default prog St.init).1.observe := by
+  obtain ⟨h1, h2⟩ := run_full cfg prog (Equiv.refl St.init) (WF_init _) (WF_init _)
+  exact ⟨h1.pointwise, (C18_equiv_observe _ _ h2).symm⟩
+
+/-- **The method cache and the collector are never observable**, not even on error paths: every configuration that keeps
+    the checks computes exactly the outcome list of the default build, for every program (no hypothesis). -/
+theorem C18_cache_and_collector_unobservable (cfg : Cfg) (hc : cfg.checks = true) (prog : List Op) :
+    (run cfg prog St.init).2 = (run Cfg.default prog St.init).2 ∧
+    (run cfg prog St.init).1.observe = (run Cfg.default prog St.init).1.observe := by
+  obtain ⟨h1, h2⟩ := run_full cfg prog (Equiv.refl St.init) (WF_init _) (WF_init _)
+  exact ⟨h1.eq_of_checks hc, (C18_equiv_observe _ _ h2).symm⟩
 
 /-! ### non-vacuity, and why the in-contract hypothesis cannot be dropped -/
 
